@@ -61,7 +61,7 @@ class Ctx:
         c.counter = self.counter
         c.used_fields = self.used_fields
         c.used_protocols = self.used_protocols
-        for a in ("fname", "line0", "assigned_fields"):
+        for a in ("fname", "line0", "assigned_fields", "mutates"):
             if hasattr(self, a):
                 setattr(c, a, getattr(self, a))
         return c
@@ -561,6 +561,10 @@ class Translator:
                 return (f"(vmap (fun e__ => fmax {coerce(a, ta, F)} e__) {b})", VF)
         if name == "argmin" and len(args) == 1 and a0[1] == VF:
             return (self.hoist(cx, binds, f"vargmin {a0[0]}"), I)
+        if name == "argmax" and len(args) == 1 and a0[1] == VE and not kws:
+            return (self.hoist(cx, binds, f"veargmax {a0[0]}"), I)
+        if name == "arange" and len(args) == 1 and a0[1] == I and not kws:
+            return (f"(zrange 0 {a0[0]})", VI)
         if name == "array" and len(args) == 1 and a0[1] == VF:
             return a0
         if name == "zeros_like" and len(args) == 1 and a0[1] in ELEM:
@@ -623,6 +627,11 @@ class Translator:
                 v = "(" + ", ".join(coerce(p, t, r) for (p, t), r in zip(parts, cx.ret)) + ")"
                 return wrap(binds, f"ret {v}")
             v, t = self.expr(s.value, cx, binds)
+            if getattr(cx, "mutates", None):
+                # an in-place kernel that also returns a value: (mutated parameters..., value)
+                if not isinstance(cx.ret, tuple) or len(cx.ret) != len(cx.mutates) + 1:
+                    raise Unsupported("return value of a mutating kernel: declared return arity")
+                return wrap(binds, "ret (" + ", ".join(mg(m) for m in cx.mutates) + f", {coerce(v, t, cx.ret[-1])})")
             return wrap(binds, f"ret {coerce(v, t, cx.ret)}")
         if isinstance(s, ast.Raise):
             return "Err Dom"
@@ -820,6 +829,7 @@ class Translator:
         cx.fname = name
         cx.line0 = fn.lineno
         cx.assigned_fields = []
+        cx.mutates = list(mutates or [])
         for k, v in (init_locals or {}).items():
             cx.types[k] = v
         if mutates:
@@ -919,6 +929,7 @@ def is_verbose_only(s):
 PROTOCOLS = {
     ("penalty", "prox_1d"): ([F, F, I], F),
     ("penalty", "prox_1group"): ([VF, F, I], VF),
+    ("penalty", "subdiff_distance"): ([VF, VF, VI], VE),
     ("datafit", "gradient_scalar"): ([M, VF, VF, VF, I], F),
     ("datafit", "gradient_scalar_sparse"): ([VF, VI, VI, VF, VF, I], F),
 }
